@@ -14,7 +14,7 @@ from .gen_input import InputSpec
 from .stream import sstr
 
 
-def run_cstream(ctx, knobs_fn, on_result, sched_steps=(0, 0, 2, 4), ninputs=5, op_weights=None, case_timeout=120, templates=None, template_prob=0.5):
+def run_cstream(ctx, knobs_fn, on_result, sched_steps=(0, 0, 2, 4), ninputs=5, op_weights=None, case_timeout=120, templates=None, template_prob=0.5, only_exact=False):
     try:
         import z3
 
@@ -34,7 +34,7 @@ def run_cstream(ctx, knobs_fn, on_result, sched_steps=(0, 0, 2, 4), ninputs=5, o
         ctx.rng = rng
         signal.setitimer(signal.ITIMER_REAL, case_timeout)
         try:
-            _one(ctx, rng, knobs_fn, on_result, sched_steps, ninputs, op_weights, nprog, templates, template_prob)
+            _one(ctx, rng, knobs_fn, on_result, sched_steps, ninputs, op_weights, nprog, templates, template_prob, only_exact)
         except CaseTimeout:
             ctx.inconclusive("case_watchdog")
         except RecursionError:
@@ -45,7 +45,7 @@ def run_cstream(ctx, knobs_fn, on_result, sched_steps=(0, 0, 2, 4), ninputs=5, o
             ctx.flush_stats()
 
 
-def _one(ctx, rng, knobs_fn, on_result, sched_steps, ninputs, op_weights, nprog, templates, template_prob):
+def _one(ctx, rng, knobs_fn, on_result, sched_steps, ninputs, op_weights, nprog, templates, template_prob, only_exact=False):
     try:
         if templates and rng.random() < template_prob:
             gp = templates(rng)
@@ -69,7 +69,7 @@ def _one(ctx, rng, knobs_fn, on_result, sched_steps, ninputs, op_weights, nprog,
         apply_step(sess, st)
     proc = sess.cur
     wd = ctx.scratch / f"cb{nprog}"
-    res = check_c(proc, rng, wd, ninputs=ninputs)
+    res = check_c(proc, rng, wd, ninputs=ninputs, only_exact=only_exact)
     ctx.stat("c.status." + res.status)
     ctx.stat("evaluations")
     if res.status in ("ok", "mismatch", "sanitizer", "approx_mismatch"):
